@@ -574,7 +574,7 @@ class Ctx:
 class Case:
     def __init__(self, name, form, build, group=None, expect=None, tol=1e-12, scale=None,
                  schema=None, seeded='none', expect_exc=None, heavy=False, repeat=True,
-                 group_kind='forms', finding=None, env_blocked=None):
+                 group_kind='forms', finding=None, env_blocked=None, variants=()):
         self.name, self.form, self.build = name, form, build
         self.group = group                # cases of one group are compared with its first case
         self.expect = expect              # projection of the reference result (default identity)
@@ -586,6 +586,7 @@ class Case:
         self.group_kind = group_kind      # kind reported when the group comparison fails
         self.finding = finding            # key of a recorded finding on the reference tree
         self.env_blocked = env_blocked    # (probe_name) the call cannot run in this environment
+        self.variants = tuple(variants)   # (label, build): the SAME callable with nearby argument values
 
 
 # ---------------------------------------------------------------------------------------
@@ -1081,18 +1082,23 @@ def b_smooth(D):
     from scipy.spatial.transform import Rotation
     out = []
 
-    def build_r(D_):
+    def build_r(D_, k=5.0):
         rph = D.traj_att()[DOC_RPH].to_numpy()[:120]
         rot = Rotation.from_euler('xyz', rph, True)
         return Ctx(dict(rotations=rot, rph=rph),
-                   lambda: t.smooth_rotations(rot, D.dt, 5 * D.dt))
-    out.append(Case('transform.smooth_rotations', 'Rotation', build_r))
+                   lambda: t.smooth_rotations(rot, D.dt, k * D.dt))
+    # nearby smoothing times (same rounded window length, different cut-off; other lengths)
+    out.append(Case('transform.smooth_rotations', 'Rotation', build_r,
+                    variants=[(f"smoothing_time={k}*dt", (lambda D_, k=k: build_r(D_, k)))
+                              for k in (5.2, 4.8, 5.45, 7.0)]))
     for sub in ('full', 'norph'):
-        def build(D_, sub=sub):
+        def build(D_, sub=sub, k=6.0):
             st = D.traj_att() if sub == 'full' else D.traj_att()[DOC_LLA + DOC_VEL]
-            return Ctx(dict(state=st), lambda: t.smooth_state(st, 6 * D.dt))
+            return Ctx(dict(state=st), lambda: t.smooth_state(st, k * D.dt))
         out.append(Case('transform.smooth_state', f"DataFrame({sub})", build,
-                        schema=lambda res, ctx: sch_table(res, list(ctx.watch['state'].columns))))
+                        schema=lambda res, ctx: sch_table(res, list(ctx.watch['state'].columns)),
+                        variants=[(f"smoothing_time={k}*dt", (lambda D_, sub=sub, k=k: build(D_, sub, k)))
+                                  for k in (6.24, 5.8, 6.45, 4.0)]))
     return out
 
 
@@ -1444,6 +1450,36 @@ def b_parameters(D):
                 out.append(Case(pre + 'apply', f"{fname}({cols[0][:-2]}),{st},params={kind}", build,
                                 group=f"{pre}apply|{st}|{cols[0]}", schema=sch, seeded='int'))
 
+    # documented attribute data_frame: one column per non-zero parameter, named like EstimationModel.states
+    psets = {
+        'walk-only': dict(bias_walk=np.array([0.0, 2e-5, 0.0])),
+        'walk-only(scalar)': dict(bias_walk=1e-5),
+        'noise-only': dict(noise=np.array([1e-4, 0.0, 2e-4])),
+        'scale-only': dict(transform=np.diag([1.001, 1.0, 0.998])),
+        'misalignment-only': dict(transform=np.array([[1.0, 1e-4, 0.0], [0.0, 1.0, 0.0], [-2e-4, 0.0, 1.0]])),
+        'bias-only': dict(bias=np.array([0.0, 1e-3, 0.0])),
+        'bias+walk-on-other-axes': dict(bias=np.array([1e-3, 0.0, 0.0]), bias_walk=np.array([0.0, 0.0, 3e-5]),
+                                        transform=np.array([[1.0, 0.0, 2e-4], [0.0, 1.002, 0.0], [0.0, 0.0, 1.0]])),
+        'nothing': dict(),
+    }
+    for pname, kw in psets.items():
+        for st in ('rate', 'increment'):
+            def build(D_, kw=kw, st=st):
+                a = {k: np.array(v, dtype=float) if not np.isscalar(v) else v for k, v in kw.items()}
+                p = PA(rng=seed, **a)
+                rd = D.imu(st)[DOC_ACCEL]
+                return Ctx(dict(a, readings=rd), lambda: p.apply(rd, st), recv=lambda: p)
+
+            def sch(res, ctx, kw=kw):
+                rd = ctx.watch['readings']
+                pr = sch_table(res, list(rd.columns), rd.index)
+                pr += sch_table(ctx.recv().data_frame,
+                                _par_states(kw.get('transform'), kw.get('bias'), kw.get('bias_walk')),
+                                rd.index, NA, None, 'data_frame')
+                return pr
+            out.append(Case(pre + 'apply', f"DataFrame(accel),{st},params:{pname}", build, schema=sch,
+                            seeded='int'))
+
     def build_glob(D_):
         p = PA(bias=b.copy(), noise=noise.copy(), bias_walk=walk.copy())
         rd = D.imu('rate')[DOC_GYRO]
@@ -1484,8 +1520,32 @@ def b_parameters(D):
                            lambda: isn.apply_imu_parameters(imu, st, gp, ap),
                            exempt=('gyro_parameters.data_frame', 'accel_parameters.data_frame'),
                            recv=lambda: (gp, ap))
+            def sch_imu(res, ctx):
+                ix = ctx.watch['imu'].index
+                pr = sch_table(res, DOC_IMU, ix)
+                for who in ('gyro_parameters', 'accel_parameters'):
+                    pr += sch_table(ctx.watch[who].data_frame, _par_states(T, b, walk), ix, NA, None,
+                                    who + '.data_frame')
+                return pr
             out.append(Case(nm, f"{fname},{st},Parameters(rng=int)", build, group=f"{nm}|{st}", seeded='int',
-                            schema=lambda res, ctx: sch_table(res, DOC_IMU, ctx.watch['imu'].index)))
+                            schema=sch_imu))
+
+    def build_w(D_):
+        gp = PA(rng=seed, bias_walk=np.array([0.0, 1e-5, 0.0]))
+        ap = PA(rng=seed + 1, bias=np.array([0.0, 0.0, 1e-3]), bias_walk=np.array([2e-5, 0.0, 0.0]))
+        imu = D.imu('rate')
+        return Ctx(dict(imu=imu, gyro_parameters=gp, accel_parameters=ap),
+                   lambda: isn.apply_imu_parameters(imu, 'rate', gp, ap),
+                   exempt=('gyro_parameters.data_frame', 'accel_parameters.data_frame'), recv=lambda: (gp, ap))
+
+    def sch_w(res, ctx):
+        ix = ctx.watch['imu'].index
+        pr = sch_table(res, DOC_IMU, ix)
+        pr += sch_table(ctx.watch['gyro_parameters'].data_frame, ['bias_y'], ix, NA, None, 'gyro data_frame')
+        pr += sch_table(ctx.watch['accel_parameters'].data_frame, ['bias_x', 'bias_z'], ix, NA, None,
+                        'accel data_frame')
+        return pr
+    out.append(Case(nm, 'DataFrame,rate,Parameters(walk-only axes)', build_w, seeded='int', schema=sch_w))
 
     def build_d(D_):
         imu = D.imu('rate')
@@ -2258,6 +2318,147 @@ class Runner:
         return D, cases
 
 
+# ---------------------------------------------------------------------------------------
+# history independence: the SAME callable with DIFFERENT argument values in between, compared with
+# fresh processes in which the calls were made in another order (module-level caches keyed too
+# coarsely, counters, memoised designs ... make the result depend on what was called before)
+HISTORY_ORDERS = ('rev', 'rot1', 'rot2')
+
+
+def _history_plan(seed, rnd, only=None, heavy=False):
+    """[(name, form, [(label, build, D)])]: per public callable one executable case and its variants:
+    explicit nearby parameter values (Case.variants) and the same case on two other data sets
+    (other numeric values, other sampling step, other shapes)."""
+    Ds = [Data(seed, rnd), Data(seed + 7919, rnd), Data(seed, rnd + 1)]
+    tabs = []
+    for D in Ds:
+        cases, _ = all_cases(D)
+        tabs.append(cases)
+    other = [{(c.name, c.form): c for c in t} for t in tabs[1:]]
+    plan, seen = [], set()
+    for c in tabs[0]:
+        ok = c.repeat and c.seeded != 'global' and not c.env_blocked and c.expect_exc is None \
+            and (heavy or not c.heavy or c.variants)
+        if not ok:
+            continue
+        if only is not None:
+            if (c.name, c.form) != tuple(only):
+                continue
+        elif c.name in seen and not c.variants:
+            continue
+        seen.add(c.name)
+        items = [('same arguments', c.build, Ds[0])] + [(lab, b, Ds[0]) for lab, b in c.variants]
+        for k, tab in enumerate(other):
+            o = tab.get((c.name, c.form))
+            if o is not None:
+                items.append((f"data set {k + 2} (other values / step / shapes)", o.build, Ds[k + 1]))
+        plan.append((c.name, c.form, items))
+    return plan
+
+
+def _perm(order, m):
+    idx = list(range(m))
+    if order == 'rev':
+        return idx[::-1]
+    if order.startswith('rot'):
+        k = int(order[3:]) % max(m, 1)
+        return idx[k:] + idx[:k]
+    return idx
+
+
+def _history_hashes(R, plan, order):
+    """call every item of every plan entry in the given order; {name|form|label: digest}, sequence log"""
+    import hashlib
+    out = {}
+    entries = plan[::-1] if order == 'rev' else plan
+    for name, form, items in entries:
+        for j in _perm(order, len(items)):
+            label, build, D = items[j]
+            shim = types.SimpleNamespace(name=name, build=build)
+            try:
+                c = R.one_call(shim, D)
+                h = ('EXC:' + type(c['exc']).__name__) if c['exc'] is not None else \
+                    hashlib.md5(repr(c['snap']).encode()).hexdigest()
+            except Exception as e:
+                h = 'BUILD-EXC:' + type(e).__name__
+            out[f"{name}|{form}|{label}"] = h
+    return out
+
+
+def _spawn_history_workers(seed, rnd, only=None, heavy=False):
+    import subprocess
+    import sys
+    import os
+    import json
+    procs = []
+    for order in HISTORY_ORDERS:
+        cmd = [sys.executable, '-W', 'ignore', os.path.abspath(__file__), '--history-worker',
+               json.dumps(dict(seed=seed, rnd=rnd, order=order, only=only, heavy=heavy))]
+        try:
+            procs.append((order, subprocess.Popen(cmd, stdout=subprocess.PIPE, stderr=subprocess.PIPE, text=True)))
+        except Exception:
+            procs.append((order, None))
+    return procs
+
+
+def _history_worker_main(arg):
+    import json
+    import sys
+    a = json.loads(arg)
+    R = Runner(None, int(a['seed']), 1, verbose=False)
+    with _SingleThreadBlas():
+        plan = _history_plan(int(a['seed']), int(a['rnd']), a.get('only'), bool(a.get('heavy')))
+        h = _history_hashes(R, plan, a['order'])
+    sys.stdout.write("\nHISTORY-RESULT " + json.dumps(h) + "\n")
+
+
+def history_check(R, seed, rnd, procs, only=None, heavy=False):
+    """main-process side: two passes in natural order, then comparison with the fresh processes"""
+    import json
+    plan = _history_plan(seed, rnd, only, heavy)
+    D0 = Data(seed, rnd)
+    p1 = _history_hashes(R, plan, 'nat')
+    p2 = _history_hashes(R, plan, 'nat')
+    R.kind_counts['history'] = R.kind_counts.get('history', 0) + len(p1)
+    others = {}
+    for order, pr in procs:
+        if pr is None:
+            R.broken('history worker ' + order, 'could not be started')
+            continue
+        try:
+            so, se = pr.communicate(timeout=900)
+        except Exception:
+            pr.kill()
+            R.broken('history worker ' + order, 'timeout')
+            continue
+        line = [l for l in so.splitlines() if l.startswith('HISTORY-RESULT ')]
+        if pr.returncode != 0 or not line:
+            R.broken('history worker ' + order, (se or so)[-1500:])
+            continue
+        others[order] = json.loads(line[-1][len('HISTORY-RESULT '):])
+    reported = set()
+    for key, h1 in p1.items():
+        name, form, label = key.split('|', 2)
+        diffs = []
+        if p2.get(key) != h1:
+            diffs.append('a second pass in the same process')
+        for order, hs in others.items():
+            if key in hs and hs[key] != h1:
+                diffs.append(f"a fresh process with call order '{order}'")
+        if diffs and (name, form) not in reported:
+            reported.add((name, form))
+            if h1.startswith(('EXC:', 'BUILD-EXC:')) or any(
+                    str(hs.get(key, '')).startswith(('EXC:', 'BUILD-EXC:')) for hs in others.values()):
+                what = f"call <{label}> raises in one call history and not in another ({diffs})"
+            else:
+                what = (f"the result of the call <{label}> depends on the calls made before it (same callable with "
+                        f"other argument values in between): bit-wise different from {diffs[:3]} — hidden state is "
+                        f"carried from one public call to the next")
+            R.fail(name, form, 'determinism', what, D0, extra=dict(history=True, item=label))
+    return len(p1), sorted(others)
+
+
+
 class _SingleThreadBlas:
     """Best effort: run the bundled OpenBLAS single-threaded while the checks run (the matrices
     are tiny; on a loaded machine the thread pool makes a filter run 15x slower).  Restored on exit."""
@@ -2307,6 +2508,8 @@ def _run_dynamic(r, n_rounds=1):
     R.check_constants()
     ncases = 0
     params = []
+    hist_heavy = n_rounds > 1
+    hist_procs = _spawn_history_workers(r.seed, 0, heavy=hist_heavy)     # run in parallel with the rounds
     for rnd in range(max(1, n_rounds)):
         try:
             D, cases = R.run_round(rnd)
@@ -2314,6 +2517,11 @@ def _run_dynamic(r, n_rounds=1):
             params.append(D.params())
         except Exception:
             R.broken(f"round {rnd}", traceback.format_exc())
+    try:
+        hist_n, hist_orders = history_check(R, r.seed, 0, hist_procs, heavy=hist_heavy)
+    except Exception:
+        hist_n, hist_orders = 0, []
+        R.broken('history check', traceback.format_exc())
     # coverage: fail closed
     uncovered = []
     for n in names:
@@ -2361,7 +2569,9 @@ def _run_dynamic(r, n_rounds=1):
         global_rng_untouched_overall=None,
         documented_exemptions=sorted(R.exempt_seen),
         blocked_by_environment=R.blocked,
-        findings=R.findings,
+        history=dict(calls_compared=hist_n, fresh_process_orders=hist_orders,
+                     rule="per public callable: same arguments, nearby parameter values, two other data sets; "
+                          "natural order twice in this process vs. reversed / rotated orders in fresh processes"),
         failures=[dict(callable=f['callable'], form=f['form'], kind=f['kind'], what=f['what'][:300])
                   for f in distinct.values()],
         failures_total=len(R.fails), broken=len(R.brokens),
@@ -2377,6 +2587,11 @@ def replay_dynamic(obj):
     R = Runner(None, int(obj.get('seed', 0)), int(obj.get('n_rounds', 1)), verbose=True)
     if obj.get('form') == 'constant':
         R.check_constants()
+    elif obj.get('history'):
+        only = [obj['callable'], obj['form']]
+        with _SingleThreadBlas():
+            procs = _spawn_history_workers(R.seed, 0, only=only, heavy=True)
+            history_check(R, R.seed, 0, procs, only=only, heavy=True)
     else:
         D = Data(R.seed, int(obj.get('round', 0)))
         cases, errors = all_cases(D)
@@ -2404,3 +2619,9 @@ def replay_dynamic(obj):
     if not same:
         print("no failure of the recorded kind on replay")
     return 1 if (same or (R.brokens and not R.fails)) else 0
+
+
+if __name__ == '__main__':
+    if len(sys.argv) >= 3 and sys.argv[1] == '--history-worker':
+        sys.path.insert(0, common.REPO)
+        _history_worker_main(sys.argv[2])
